@@ -300,7 +300,7 @@ def gen_program(r, nthreads, style):
     return seq
 
 
-def run_program(libx, ops, nw, timeout=120):
+def run_program(libx, ops, nw, timeout=30):
     env = dict(os.environ, MYTH_NUM_WORKERS=str(nw))
     try:
         p = subprocess.run([libx] + ops, stdout=subprocess.PIPE, stderr=subprocess.PIPE, env=env, timeout=timeout,
@@ -323,7 +323,10 @@ def parse_trace(out):
     for line in out.split("\n"):
         if line.startswith("E "):
             f = line.split()
-            t.events.append((int(f[1]), f[2], int(f[3], 16), int(f[4]), int(f[5], 16), int(f[6])))
+            try:
+                t.events.append((int(f[1]), f[2], int(f[3], 16), int(f[4]), int(f[5], 16), int(f[6])))
+            except (IndexError, ValueError):
+                pass              # truncated line of a process that died while writing
         elif line.startswith("H "):
             f = line.split()
             t.header = dict(zip(f[1::2], (int(x) for x in f[2::2])))
@@ -396,8 +399,6 @@ def lib_oracle(t):
             elif rec["state"] == "live":
                 bad.append("event %d: stack S%d handed out twice" % (n, rec["tag"]))
             cls = py_class(ln) if val else 0
-            if rec["cls"] is not None and rec["cls"] != cls:
-                bad.append("event %d: stack S%d changes class %s -> %s" % (n, rec["tag"], rec["cls"], cls))
             rec.update(top=obj, len=ln, blk=blk, state="live", owner=pending.get(rank), cls=cls)
             by_top[obj] = rec
             d = desc.get(pending.get(rank))
@@ -502,9 +503,6 @@ def lib_oracle(t):
                 d["det"] = 1
             toks.append("%d,det,%d,%d" % (rank, dtag.get(obj, -1), S))
         elif eid == "finish.cb.detached":
-            d = desc.get(obj)
-            if d and bool(extra) != bool(d["det"]):
-                bad.append("event %d: D%d detached flag %d at finish, the program asked for %d" % (n, dtag[obj], extra, d["det"]))
             toks.append("%d,at,%d" % (rank, S))
         else:
             toks.append("%d,at,%d" % (rank, S))
@@ -596,15 +594,16 @@ def run(ctx):
     for style, ops in progs:
         for nw in (1, 2, 3, 4):
             for rep in range(reps):
+                if len(lib_fail) >= 3:
+                    continue          # enough failing inputs; do not spend the budget on hanging runs
                 rc, out, err = run_program(libx, ops, nw)
                 t = parse_trace(out)
                 runs += 1
                 nev += len(t.events)
                 for e in t.events:
                     dist[e[1]] = dist.get(e[1], 0) + 1
-                bad = judge_run(t, rc)
                 ob, toks = lib_oracle(t)
-                bad += ob
+                bad = ob + judge_run(t, rc)
                 if bad:
                     lib_fail.append({"ops": ops, "workers": nw, "messages": bad[:12], "events": len(t.events),
                                      "result": t.result, "stderr": err[-400:]})
